@@ -136,7 +136,7 @@ def main(tier):
         run.inconclusive_because(f"positive control did not fire: {b}")
     run.counters["positive_controls_fired"] = 19 - len(bad)
     plan = PLAN[tier]
-    run_shards(run, "c03", plan["shards"], timeout_s=600 if tier == "quick" else 7200)
+    run_shards(run, "c03", plan["shards"], timeout_s=3600 if tier == "quick" else 7200)
     if run.counters.get("irvm-evaluate_judged", 0) < 800:
         run.inconclusive_because("too few sparse outputs were judged")
     if run.counters.get("gate_suppressed_coordinate", 0) < 100:
